@@ -485,3 +485,21 @@ func (t *fnTrans) modelQueries() []string {
 	}
 	return qs
 }
+
+// chanInvByElem: the element-type keyed channel invariant (`chaninv chan[T]`) for channels of element type elem.
+func (e *Engine) chanInvByElem(elem types.Type) *ChanInv {
+	for _, k := range sortedKeys(e.contracts.ChanInvs) {
+		ci := e.contracts.ChanInvs[k]
+		if ci.ElemText == "" {
+			continue
+		}
+		pkg := e.typesPkg(ci.Pkg)
+		if pkg == nil {
+			continue
+		}
+		if ty := e.resolveType(ci.ElemText, pkg); ty != nil && types.Identical(ty, elem) {
+			return ci
+		}
+	}
+	return nil
+}
